@@ -3,5 +3,6 @@ NEXT Next
 CONSTANTS
   MaxLen = 2
   SmallLen = 3
-  NSample = 3000
-  SampleLen = 3
+  SmallSize = 10
+  NSample3 = 0
+  NSample4 = 0
